@@ -16,7 +16,8 @@ RULE = ("meshes from: generated arc/Voronoi tissues and sub-tissues with holes/b
         "replace_short_edges on/off) and Frame construction, under three reference-holding schedules (none / gc disabled "
         "during the call / previous results kept alive until after the next step). distinct = (source, cells, vertices, "
         "operation sequence, schedule); non-trivial = at least one cell"
-        ' Added after the seeded rounds: thinned rasters with a free closed ring, WKT polygons far from the origin; a builder that raises on a valid input is a violation.')
+        ' Added after the seeded rounds: thinned rasters with a free closed ring, WKT polygons far from the origin; a builder that raises on a valid input is a violation.'
+        ' Regular centre sets (exactly vertical ridges) in the tessellation family.')
 MIN_DECISIVE = {"quick": 150, "thorough": 2000}
 REQUIRED_COUNTERS = ["post:generate_mesh", "post:Frame", "post:SurfaceEvolver.create_lattice", "post:Skeleton.create_lattice",
                      "post:wkt.create_lattice", "post:tessellation.create_lattice"]
